@@ -38,7 +38,7 @@ var c17OpNames = []string{
 	"item.String", "item.ToBytes", "item.Variables", "item.Size", "item.Fill", "item.FillEllipsis",
 	"msg.String", "msg.ToBytes", "msg.Variables", "msg.Header", "msg.SetWaitBit", "msg.SetSession", "msg.Fill", "msg.SystemBytes",
 	"sml.Parse", "hsms.Parse", "build.List", "hsms.ParseRejected", "hsms.ParseRejected", "sml.ParseRejected",
-	"complete.SetSession", "complete.SetWaitBit", "complete.Fill",
+	"complete.SetSession", "complete.SetWaitBit", "complete.Fill", "sml.ParseDeep", "hsms.ParseDeep",
 }
 
 type c17Shared struct {
@@ -52,6 +52,16 @@ type c17Shared struct {
 	rejected []byte
 	badText  string
 }
+
+var c17DeepText = "S1F1 W H->E deep\n" + strings.Repeat("<L ", 260) + "<U1 1>" + strings.Repeat(">", 260) + "\n."
+
+var c17DeepWire = func() []byte {
+	b := append([]byte(nil), c07Header...)
+	for i := 0; i < 400; i++ {
+		b = append(b, 0x01, 0x01)
+	}
+	return patchLen(append(b, 0xA5, 0x01, 0x07))
+}()
 
 func (s *c17Shared) run(op string) string {
 	switch op {
@@ -110,6 +120,16 @@ func (s *c17Shared) run(op string) string {
 		// a well-formed frame that only the message / item constructors refuse (panic + recover path of the decoder)
 		_, ok := hsms.Parse(s.rejected)
 		return fmt.Sprint("ok=", ok)
+	case "sml.ParseDeep":
+		// a legal, deeply nested text: whatever bookkeeping the parser does per nesting level is per call
+		msgs, errs, _ := sml.Parse(c17DeepText)
+		return fmt.Sprint(len(msgs), "|", strings.Join(errs, ";"))
+	case "hsms.ParseDeep":
+		m, ok := hsms.Parse(c17DeepWire)
+		if !ok {
+			return "rejected"
+		}
+		return fmt.Sprint(len(m.ToBytes()))
 	case "sml.ParseRejected":
 		msgs, errs, _ := sml.Parse(s.badText)
 		return fmt.Sprint(len(msgs), "|", strings.Join(errs, ";"))
